@@ -123,6 +123,20 @@ func c18Cases(tier string) []c18Case {
 		// call, so the kernel would claim k bytes without having written any (a lying kernel, not a
 		// short write); not enumerated.
 	}
+	// interrupted run followed by another run on the (edited) file
+	for _, fi := range []int{0, 6} {
+		if tier != "thorough" && fi == 6 {
+			continue
+		}
+		for _, k := range []struct {
+			sys, errno string
+			n          int
+		}{{"write", "", 2}, {"renameat", "", 1}, {"fchmod", "", 1}, {"close", "", 6}, {"write", "ENOSPC", 2}, {"renameat", "EIO", 1}, {"fchmod", "EIO", 1}} {
+			for w := 1; w <= k.n; w++ {
+				out = append(out, c18Case{file: fi, kind: "rerun", sys: k.sys, when: w, errno: k.errno})
+			}
+		}
+	}
 	inSet := map[int]bool{}
 	for _, fi := range fileSet {
 		inSet[fi] = true
@@ -143,7 +157,7 @@ func init() {
 	core.Register(&core.Check{
 		ID:    "C18",
 		Level: "fault_enumeration",
-		Rule:  "the real evy binary built from the current tree runs `fmt -w` on source files of several shapes (needing changes, already formatted, executable bit, unparsable, empty, read-only, 1 MiB, reached through a symlink, txtar with several members, txtar with an unparsable member, modes 0664/0666/0775/0606, CRLF and CR line endings, missing final newline, trailing blank) under strace -f: a clean traced run, then one run per kill point (every syscall kind of the process x occurrence index: SIGKILL on entering that call) and per injected fault (file-related syscalls x occurrence x errno, short writes); after every run the bytes and mode of the file, the directory listing, exit status and stderr are judged; `fmt -c` on every shape (file and stdin). distinct = distinct (file shape, injection) pairs whose injection actually fired (strace log)",
+		Rule:  "the real evy binary built from the current tree runs `fmt -w` on source files of several shapes (needing changes, already formatted, executable bit, unparsable, empty, read-only, 1 MiB, reached through a symlink, txtar with several members, txtar with an unparsable member, modes 0664/0666/0775/0606, CRLF and CR line endings, missing final newline, trailing blank) under strace -f: a clean traced run, then one run per kill point (every syscall kind of the process x occurrence index: SIGKILL on entering that call) and per injected fault (file-related syscalls x occurrence x errno, short writes); after every run the bytes and mode of the file, the directory listing, exit status and stderr are judged; `fmt -c` on every shape (file and stdin); interrupted runs (kill or fault in write/rename/chmod/close) followed by an edit of the file and a second, uninjected run. distinct = distinct (file shape, injection) pairs whose injection actually fired (strace log)",
 		Assumptions: []string{
 			"closed-form oracle: file bytes in {original, formatted}; mode unchanged; exit 0 implies the file holds the formatted text; unparsable input: file untouched and exit != 0",
 			"durability across power loss (no fsync before rename) is outside the property's quantifier and not claimed; leftover temporary files after a failed write are reported in the evidence but are not violations",
@@ -336,6 +350,44 @@ func c18Run(c *core.Ctx, i int) {
 			c.Cover("fault", cs.sys+":"+cs.errno)
 		}
 		judge(res, cs.kind+" "+inj)
+	case "rerun":
+		// a run that died or failed half way may leave files behind; the next run on the same file
+		// (meanwhile edited to something shorter) must not be influenced by them
+		inj := fmt.Sprintf("inject=%s:%s:when=%d", cs.sys, map[bool]string{true: "signal=KILL", false: "error=" + cs.errno}[cs.errno == ""], cs.when)
+		first, err := c18Exec(c, dir, []string{"-e", inj}, "fmt", "-w", f.name)
+		if err != nil {
+			c.Inconclusive(desc + ": " + err.Error())
+			return
+		}
+		c.Event("traced_runs", 1)
+		if !first.injected {
+			c.Event("injections_not_matched", 1)
+			return
+		}
+		target := path
+		if f.symlink {
+			target = filepath.Join(dir, "real-"+f.name)
+		}
+		short := "q:=1\nprint   q\n"
+		wantShort, _, _, ferr := evyCmd(c, short, "fmt")
+		if ferr != nil {
+			c.Inconclusive(desc + ": " + ferr.Error())
+			return
+		}
+		_ = os.Chmod(target, 0o644)
+		_ = os.WriteFile(target, []byte(short), 0o644)
+		_ = os.Chmod(target, f.mode|0o200)
+		_, stderr, code, err := evyCmd(c, "", "fmt", "-w", path)
+		if err != nil {
+			c.Inconclusive(desc + ": " + err.Error())
+			return
+		}
+		got, _ := os.ReadFile(target)
+		c.Event("rerun_cases", 1)
+		c.Distinct(desc)
+		if code != 0 || string(got) != wantShort {
+			c.Violation("rerun-after-interrupted-run", fmt.Sprintf("after a run interrupted by %s the file was edited (%d bytes) and formatted again: exit %d (%s), the file holds %d bytes %q, expected %q", inj, len(short), code, firstN(stderr, 100), len(got), firstN(string(got), 80), wantShort), desc, nil)
+		}
 	case "check":
 		c18Check(c, f, dir, path, formatted, desc)
 	}
